@@ -29,8 +29,34 @@ import (
 
 type tok struct{ from, to, n int }
 
+// contactProvider is a SubscriptionContactProvider driven by the harness: it announces nodes the way
+// the cluster's memberlist delegate does (NotifyJoin is also called for the local node).
+type contactProvider struct {
+	ch chan *vivid.SubscriptionContactEvent
+}
+
+func (p *contactProvider) ChangeNotify() <-chan *vivid.SubscriptionContactEvent { return p.ch }
+
+// announce hands the event to the subscription actor's listener goroutine and returns once the
+// subscription actor has answered it: the listener takes the next event only after
+// FutureAsk(...).Wait() of the previous one returned, so a second, identical (idempotent) event is
+// accepted only then.
+func (p *contactProvider) announce(ev *vivid.SubscriptionContactEvent) bool {
+	for i := 0; i < 2; i++ {
+		cp := *ev
+		select {
+		case p.ch <- &cp:
+		case <-time.After(hardCap):
+			return false
+		}
+	}
+	return true
+}
+
 type group struct {
 	worlds  []*world
+	provs   []*contactProvider
+	open    [3][3]bool // open[n][m]: node n's subscription actor lists node m
 	linked  bool
 	tokCh   chan tok
 	tokN    int
@@ -67,8 +93,13 @@ func (g *group) remoteTok(from, to, n int) {
 func newGroup() *group {
 	g := &group{tokCh: make(chan tok, 256)}
 	for node := 1; node <= 2; node++ {
-		w := newWorld(func(c *vivid.ActorSystemConfiguration) { c.WithShared("127.0.0.1:0") }, "sys", node, g)
+		p := &contactProvider{ch: make(chan *vivid.SubscriptionContactEvent)}
+		w := newWorld(func(c *vivid.ActorSystemConfiguration) {
+			c.WithShared("127.0.0.1:0")
+			c.WithSubscriptionContactProviders(p)
+		}, "sys", node, g)
 		g.worlds = append(g.worlds, w)
+		g.provs = append(g.provs, p)
 	}
 	return g
 }
@@ -118,20 +149,19 @@ func (g *group) link() {
 		}
 	}
 	g.linked = true
+	g.open[1][2], g.open[2][1] = true, true
 }
 
 func (g *group) quiesce() string {
 	for _, w := range g.worlds {
 		w.barrier()
 	}
-	if g.linked {
-		for _, w := range g.worlds {
-			if g.isTainted() {
-				break
-			}
-			if !g.crossOnce(w, hardCap) {
-				g.tainted = true
-			}
+	for _, w := range g.worlds {
+		if g.isTainted() {
+			break
+		}
+		if g.open[w.node][3-w.node] && !g.crossOnce(w, hardCap) {
+			g.tainted = true
 		}
 	}
 	for _, w := range g.worlds {
@@ -191,6 +221,24 @@ func (r *remoteRunner) Step(t []string) string {
 			return "bad-op"
 		}
 		w := g.worlds[int(t[0][0]-'1')]
+		if t[1] == "announce" || t[1] == "leave" {
+			// the contact provider of node n reports that node m joined / left (m = n: the local node,
+			// as memberlist does when the cluster node starts)
+			if len(t) != 3 || (t[2] != "1" && t[2] != "2") {
+				return "bad-op"
+			}
+			m := int(t[2][0] - '0')
+			if m != w.node && !g.linked {
+				return "unlinked" // a peer is only announced once the link is up (keeps the quiescence protocol simple)
+			}
+			ev := &vivid.SubscriptionContactEvent{Address: g.worlds[m-1].sys.PhysicalAddress(), Stop: t[1] == "leave"}
+			if !g.provs[w.node-1].announce(ev) {
+				g.tainted = true
+				return "-"
+			}
+			g.open[w.node][m] = t[1] == "announce"
+			return join("ok", g.quiesce())
+		}
 		return w.step(t[1:])
 	}()
 	if g.isTainted() && out != "bad-op" {
@@ -230,7 +278,13 @@ func remoteRandom(rng *proto.RNG, cw *caseWriter, cases, maxLen int) {
 			node := rng.Range(1, 2)
 			a := serialActors[rng.Intn(na)]
 			t := serialTopics[rng.Intn(nt)]
-			switch rng.Pick(20, 8, 40, 12, 4, 4) {
+			switch rng.Pick(20, 8, 40, 12, 4, 4, 5) {
+			case 6:
+				op := "announce"
+				if rng.Intn(4) == 0 {
+					op = "leave"
+				}
+				lines = append(lines, fmt.Sprintf("%d %s %d", node, op, rng.Range(1, 2)))
 			case 0:
 				lines = append(lines, fmt.Sprintf("%d sub %s %s", node, a, t))
 				nextID[node]++
@@ -266,6 +320,11 @@ func remoteFixed(cw *caseWriter) {
 	cw.emit([]string{"1 spawn a0 t1", "2 spawn a0 t1", "2 spawn a1", "1 pube a0 t1 1", "link", "link", "1 pube a0 t1 2", "2 pube a1 t1 3",
 		"1 pub a0 t1 4", "2 sub a1 t1", "2 sub a1 t1", "1 pube sys t1 5", "2 unsub a1 3", "1 pube a0 t1 6", "2 restart a0", "1 pube a0 t1 7",
 		"2 term a0", "1 pube a0 t1 8", "1 term a0", "2 pube a1 t1 9", "3 sub a0 t1", "link a", "1"})
+	// the local node is announced to its own subscription actor (cluster mode): still exactly once
+	cw.emit([]string{"1 spawn a0 t1", "1 announce 1", "1 pube a0 t1 1", "1 pub a0 t1 2", "link", "2 spawn a0 t1", "2 announce 2", "1 pube a0 t1 3",
+		"2 pube a0 t1 4", "1 leave 2", "1 pube a0 t1 5", "2 pube a0 t1 6", "1 announce 2", "1 pube a0 t1 7", "1 leave 1", "1 pube a0 t1 8",
+		"1 announce 3", "1 announce", "2 leave x"})
+	cw.emit([]string{"1 announce 2", "1 spawn a0 t1", "1 pube a0 t1 1"})
 }
 
 func remoteGen(rng *proto.RNG, tier string, shard, nshards int, w *bufio.Writer) {
